@@ -32,10 +32,20 @@ Qed.
 Lemma hpo_graph_new c h g gi go ginit ns : hpo (fst (graph_new c h g gi go ginit ns)) = hpo h.
 Proof.
   unfold graph_new. destruct (negb (blank_graph h g)); [reflexivity|].
-  destruct (_ && c SGraphNew); [reflexivity|].
-  pose proof (hpo_graph_build c h g gi go (dict_of (how h) ginit []) ns) as Hb.
-  destruct (graph_build _ _ _ _ _ _ _) as [h' r]. simpl in Hb.
-  destruct r; simpl; [assumption|]. destruct (_ || _); simpl; [assumption|reflexivity].
+  destruct (c SGraphNew).
+  - destruct (graph_new_reject _ _ _ _ _); [reflexivity|]. cbn [fst K]. unfold graph_init. cbn [hpo with_nm].
+    rewrite hpo_g_extend, !hpo_reg_values. reflexivity.
+  - pose proof (hpo_graph_build c h g gi go (dict_of (how h) ginit []) ns) as Hb.
+    destruct (graph_build _ _ _ _ _ _ _) as [h' r]. simpl in Hb.
+    destruct r; simpl; [assumption|]. destruct (_ || _); simpl; [assumption|reflexivity].
+Qed.
+Lemma hpo_sort_fold c orders : forall h0,
+  hpo (fold_left (fun h go => fst (g_extend c h (fst go) (snd go))) orders h0) = hpo h0.
+Proof. induction orders as [|go t IH]; intros h0; simpl; [reflexivity|]. rewrite IH. apply hpo_g_extend. Qed.
+Lemma hpo_g_sort c h out : hpo (fst (g_sort c h out)) = hpo h.
+Proof.
+  unfold g_sort. destruct out as [orders|]; [|reflexivity]. destruct (sort_valid h orders); [|reflexivity]. cbn [fst K].
+  apply hpo_sort_fold.
 Qed.
 Lemma hpo_remove_fold safe g l : forall h, hpo (fold_left (fun h n => remove_one safe h g n) l h) = hpo h.
 Proof.
@@ -75,6 +85,7 @@ Proof.
   - destruct (ngraph (hng h) n); [rewrite hpo_g_insert|]; assumption.
   - destruct (ngraph (hng h) n); [rewrite hpo_g_insert|]; assumption.
   - unfold g_remove. destruct (forallb _ _); [|assumption]. cbn [fst K]. rewrite hpo_remove_fold. assumption.
+  - rewrite hpo_g_sort. assumption.
   - unfold n_replace_input. destruct (_ || _)%bool; assumption.
   - unfold n_resize_inputs. destruct (_ =? _)%Z; [assumption|]. destruct (_ <? _)%Z; [assumption|].
     destruct (_ <? _); assumption.
